@@ -188,7 +188,9 @@ def h_position(ctx, tier, seed, names):
     # supply everything that is reported (and nothing else), in two stage orders
     x = ctx.sym_int("arg", "i128")
     args = MapM("BTreeMap", [[StrM(p, True), True, T.v("ArgValue", "Int", x)] for p in sorted(rp)])
-    inputs = MapM("BTreeMap", [[StrM(q, True), True, one_utxo(T, 0xA0 + i)] for i, q in enumerate(sorted(rq))])
+    # a query may also be closed with an empty UTxO set (an `input*` that matched nothing): still supplied
+    empty = bool(rq) and eng.choose(2, "UTxO set supplied for each query: one UTxO / the empty set") == 1
+    inputs = MapM("BTreeMap", [[StrM(q, True), True, MapM("HashSet", []) if empty else one_utxo(T, 0xA0 + i)] for i, q in enumerate(sorted(rq))])
     fee = ctx.sym_int("fee", "u64")
     order = eng.choose(3, "stage order")
     stages = {"args": lambda t: eng.call_fn(eng.fns["apply_args"], [t, ref_to_value(args)]),
@@ -210,6 +212,8 @@ def h_position(ctx, tier, seed, names):
             return
         ctx.violation("[%s] apply/reduce panicked: %s" % (name, p.kind), site=p.site, shape="apply/reduce panics at %s" % name)
         return
+    if r.variant != "Ok" and empty:
+        return      # reading a datum / value off an empty set may fail: not a closure failure
     if r.variant != "Ok":
         # a value-dependent reduction error (index out of range, overflow) is not a closure failure
         ctx.require(name in ("property.index", "property.operand", "negate", "add.lhs", "add.rhs", "sub.lhs", "sub.rhs", "concat.lhs", "concat.rhs"),
